@@ -297,6 +297,7 @@ func (e *Engine) loadSpecs(externDir string) error {
 			db.funcs[name] = f
 		}
 	}
+	e.computeFieldAliases()
 	return nil
 }
 
